@@ -9,7 +9,9 @@ import (
 	"sort"
 	"strings"
 	"sync"
+	"sync/atomic"
 	"testing"
+	"time"
 
 	v2 "mosn.io/mosn/pkg/config/v2"
 	"mosn.io/mosn/pkg/protocol"
@@ -901,4 +903,188 @@ func readJSON(path string, v interface{}) error {
 		return err
 	}
 	return json.Unmarshal(b, v)
+}
+
+// ---------------------------------------------------------------------------------------------
+// (d) part wrr-overlap: picks that OVERLAP. The scheduler of the weighted round robin is shared by every request of a
+// cluster; two lookups that run at the same time have to leave it as two lookups one after the other would. The harness
+// owns the interleaving through the public interface only: the hosts it hands to the balancer are wrappers whose
+// Weight() - which the scheduler calls in the middle of a pick - can park its caller. Per overlap: pick A is started and
+// parked inside its Weight() call, pick B is started and given 5 ms to finish (it cannot while A holds the scheduler's
+// lock - then A is released and they run one after the other; that pause decides only which interleaving is tried, no
+// verdict), then A is released. Oracle: the window bound of part wrr over the whole sequence of picks, sequential ones
+// and overlapping pairs, for SOME order of each pair (their order is not observable).
+
+const partWRROverlap = "wrr-overlap"
+
+type overlapGate struct {
+	mode   int32 // 0 pass, 1 park the next caller, 2 somebody is parked
+	parked chan struct{}
+	resume chan struct{}
+}
+
+func (g *overlapGate) enter() {
+	if atomic.CompareAndSwapInt32(&g.mode, 1, 2) {
+		g.parked <- struct{}{}
+		<-g.resume
+		atomic.StoreInt32(&g.mode, 0)
+	}
+}
+
+type gatedHost struct {
+	types.Host
+	g *overlapGate
+}
+
+func (h *gatedHost) Weight() uint32 { h.g.enter(); return h.Host.Weight() }
+
+func TestPropWRROverlap(t *testing.T) {
+	ev.Check(t, func(rt *rapid.T) {
+		lb.Housekeep(256)
+		w := genHostWeights(rt)
+		sum := 0
+		diff := map[uint32]bool{}
+		for _, x := range w {
+			sum += int(x)
+			diff[x] = true
+		}
+		if len(diff) < 2 { // the scheduler is only used with unequal weights
+			w[0] = w[0]%128 + 1
+			if w[0] == w[len(w)-1] {
+				w[0] = w[0]%128 + 1
+			}
+			sum, diff = 0, map[uint32]bool{}
+			for _, x := range w {
+				sum += int(x)
+				diff[x] = true
+			}
+		}
+		nOver := rapid.IntRange(1, 3).Draw(rt, "overlaps")
+		before := make([]int, nOver)
+		for i := range before {
+			before[i] = rapid.IntRange(0, minI(sum, 40)).Draw(rt, "sequentialPicksBefore")
+		}
+		after := sum + rapid.IntRange(0, sum).Draw(rt, "sequentialPicksAfter")
+		if after > 1200 {
+			after = 1200
+		}
+		ev.Case(partWRROverlap, len(diff) >= 2, []byte(fmt.Sprint("overlap|", w, before, after)), func() interface{} {
+			return map[string]interface{}{"weights": w, "sequential_picks_before_each_overlap": before, "sequential_picks_after": after}
+		}, fmt.Sprintf("n=%d", len(w)), fmt.Sprintf("overlaps=%d", nOver))
+
+		g := &overlapGate{parked: make(chan struct{}, 1), resume: make(chan struct{})}
+		cfg := v2.Cluster{Name: lb.NextName("c06-ovl"), ClusterType: v2.SIMPLE_CLUSTER, LbType: v2.LbType(types.WeightedRoundRobin)}
+		info := cluster.NewClusterInfo(cfg)
+		var hosts []types.Host
+		index := map[types.Host]int{}
+		for i, x := range w {
+			h := &gatedHost{Host: lb.NewHost(info, lb.NextAddr(), x, nil), g: g}
+			hosts = append(hosts, h)
+			index[h] = i
+		}
+		balancer := cluster.NewLoadBalancer(info, cluster.NewHostSet(hosts))
+		ctx := lb.NewCtx(0, nil)
+		pick := func() int {
+			h := balancer.ChooseHost(ctx)
+			if h == nil {
+				return -1
+			}
+			if i, ok := index[h]; ok {
+				return i
+			}
+			return -2
+		}
+		type slot struct{ a, b int } // b < 0: a sequential pick
+		var seq []slot
+		seqPick := func(n int) {
+			for ; n > 0; n-- {
+				seq = append(seq, slot{pick(), -1})
+			}
+		}
+		overlapped := 0
+		for o := 0; o < nOver; o++ {
+			seqPick(before[o])
+			atomic.StoreInt32(&g.mode, 1)
+			ra, rb := make(chan int, 1), make(chan int, 1)
+			go func() { ra <- pick() }()
+			var a, b int
+			select {
+			case <-g.parked:
+				go func() { rb <- pick() }()
+				select {
+				case b = <-rb: // B ran to its end while A was inside its pick
+					overlapped++
+					g.resume <- struct{}{}
+					a = <-ra
+				case <-time.After(5 * time.Millisecond): // B waits for A (the scheduler's lock): one after the other
+					g.resume <- struct{}{}
+					a, b = <-ra, <-rb
+				}
+			case a = <-ra: // A never asked for a weight
+				atomic.StoreInt32(&g.mode, 0)
+				b = pick()
+			}
+			seq = append(seq, slot{a, b})
+		}
+		seqPick(after)
+		if overlapped > 0 {
+			ev.Class(partWRROverlap, "pick-completed-inside-another-pick")
+		}
+		for p, s := range seq {
+			if s.a < 0 || s.b < -1 {
+				ev.Fail(rt, partWRROverlap, "wrr/returned-no-host", "weights %v: pick %d returned no host / a non-member although all hosts are healthy", w, p)
+			}
+		}
+		// the window bound for some order of every overlapping pair
+		var pairs []int
+		for p, s := range seq {
+			if s.b >= 0 {
+				pairs = append(pairs, p)
+			}
+		}
+		var firstBad string
+		okSome := false
+		for mask := 0; mask < 1<<len(pairs) && !okSome; mask++ {
+			flat := make([]int, 0, len(seq)+len(pairs))
+			k := 0
+			for _, s := range seq {
+				if s.b < 0 {
+					flat = append(flat, s.a)
+					continue
+				}
+				if mask>>k&1 == 0 {
+					flat = append(flat, s.a, s.b)
+				} else {
+					flat = append(flat, s.b, s.a)
+				}
+				k++
+			}
+			if ok, i, j, s, e, lag := windowLag(flat, w); ok {
+				okSome = true
+			} else if firstBad == "" {
+				ni, nj := 0, 0
+				for _, h := range flat[s:e] {
+					if h == i {
+						ni++
+					}
+					if h == j {
+						nj++
+					}
+				}
+				firstBad = fmt.Sprintf("in the window of picks [%d,%d) host %d (w=%d) was served %d times and host %d (w=%d) %d times: |n_i*w_j - n_j*w_i| = %d > w_i + w_j = %d; window %s",
+					s, e, i, w[i], ni, j, w[j], nj, lag, w[i]+w[j], short(flat[s:e]))
+			}
+		}
+		if !okSome {
+			ev.Fail(rt, partWRROverlap, "wrr/window-lag-exceeds-bound:after-overlapping-picks",
+				"weights %v, overlapping pairs at picks %v (%d of them with one pick completed inside the other): for every order of the pairs the bound is broken, e.g. %s", w, pairs, overlapped, firstBad)
+		}
+	})
+}
+
+func minI(a, b int) int {
+	if a < b {
+		return a
+	}
+	return b
 }
